@@ -2,7 +2,29 @@
 // call-depth attribution (a package of its own so that package domains differ).
 package dp3
 
+import (
+	"github.com/cockroachdb/errors"
+	"github.com/cockroachdb/errors/domains"
+)
+
 // Call calls f.
 //
 //go:noinline
 func Call(f func() interface{}) interface{} { r := f(); return r }
+
+// domain functions called directly from this package
+//
+//go:noinline
+func PkgDomain() string { return string(domains.PackageDomain()) }
+
+//go:noinline
+func NewDomain() string { return string(domains.GetDomain(domains.New("m"))) }
+
+//go:noinline
+func HandledDomain(err error) string { return string(domains.GetDomain(domains.Handled(err))) }
+
+//go:noinline
+func RootPkgDomain() string { return string(errors.PackageDomain()) }
+
+//go:noinline
+func AtDepth0() string { return string(errors.PackageDomainAtDepth(0)) }
